@@ -166,9 +166,8 @@ def run(ctx):
              ctx.construct(sc, extra='namespace'),
              "the caller's namespace is not propagated", ctx.loc(sc))
     ce = prog.func(WF + '._create_execution')
-    txt = ' '.join(ast.unparse(ce.node).split())
     for key in ('task_execution_id', 'root_execution_id', 'index'):
-        r3.check("params.get('%s'" % key in txt,
+        r3.check(U.reads_key(ce.node, key),
                  ctx.construct(ce, extra='reads ' + key),
                  'execution creation no longer reads params[%r]' % key,
                  ctx.loc(ce))
